@@ -968,3 +968,66 @@ func init() {
 		return fr.havocCall(cx, "retry.OnError with unknown function")
 	}
 }
+
+// lo.Assign(maps...): a freshly allocated map, the right-biased union of the arguments.
+// resource.MustParse: a deterministic function of the string.
+func init() {
+	stubs["github.com/samber/lo.Assign"] = func(cx *callCtx) []Term {
+		e := cx.fr.eng
+		vc := e.vc
+		mt, ok := cx.sig.Results().At(0).Type().Underlying().(*types.Map)
+		if !ok {
+			return cx.fr.havocCall(cx, "lo.Assign")
+		}
+		n := cx.staticSliceLen(0)
+		if n < 0 || n > 4 {
+			// unknown number of maps: fresh map with arbitrary contents
+			loc := e.newObj(cx.st)
+			dc := e.mapDomComp(mt)
+			d := vc.fresh("assign.dom", strings.TrimSuffix(strings.TrimPrefix(e.compSort[dc], "(Array Loc "), ")"))
+			cx.st.heap[dc] = vc.name("h", e.compSort[dc], sto(e.get(cx.st, dc), loc, d))
+			if !isEmptyStruct(mt.Elem()) {
+				vcmp := e.mapValComp(mt)
+				v := vc.fresh("assign.val", strings.TrimSuffix(strings.TrimPrefix(e.compSort[vcmp], "(Array Loc "), ")"))
+				cx.st.heap[vcmp] = vc.name("h", e.compSort[vcmp], sto(e.get(cx.st, vcmp), loc, v))
+			}
+			return []Term{loc}
+		}
+		// the variadic slice holds n maps: fold them
+		ks := vc.sortOf(mt.Key())
+		dc := e.mapDomComp(mt)
+		dom := e.emptySet(ks)
+		var val Term
+		hasVal := !isEmptyStruct(mt.Elem())
+		var vcmp string
+		if hasVal {
+			vcmp = e.mapValComp(mt)
+			val = vc.fresh("assign.val0", strings.TrimSuffix(strings.TrimPrefix(e.compSort[vcmp], "(Array Loc "), ")"))
+		}
+		box := e.get(cx.st, e.boxComp(mt))
+		for j := 0; j < n; j++ {
+			m := sel(box, fmt.Sprintf("(sidx %s %d)", cx.args[0], j))
+			dj := sel(e.get(cx.st, dc), m)
+			ndom := vc.fresh("assign.dom", fmt.Sprintf("(Array %s Bool)", ks))
+			vc.assumeIf(cx.st.pc, fmt.Sprintf("(forall ((k %s)) (! (= (select %s k) (or (select %s k) (select %s k))) :pattern ((select %s k))))", ks, ndom, dom, dj, ndom))
+			if hasVal {
+				vj := sel(e.get(cx.st, vcmp), m)
+				nval := vc.fresh("assign.val", strings.TrimSuffix(strings.TrimPrefix(e.compSort[vcmp], "(Array Loc "), ")"))
+				vc.assumeIf(cx.st.pc, fmt.Sprintf("(forall ((k %s)) (! (= (select %s k) (ite (select %s k) (select %s k) (select %s k))) :pattern ((select %s k))))", ks, nval, dj, vj, val, nval))
+				val = nval
+			}
+			dom = ndom
+		}
+		loc := e.newObj(cx.st)
+		cx.st.heap[dc] = vc.name("h", e.compSort[dc], sto(e.get(cx.st, dc), loc, dom))
+		if hasVal {
+			cx.st.heap[vcmp] = vc.name("h", e.compSort[vcmp], sto(e.get(cx.st, vcmp), loc, val))
+		}
+		return []Term{loc}
+	}
+	stubs["k8s.io/apimachinery/pkg/api/resource.MustParse"] = func(cx *callCtx) []Term {
+		vc := cx.fr.eng.vc
+		vc.decl("fn:qty_parse", "(declare-fun qty_parse (Str) Int)")
+		return []Term{fmt.Sprintf("(qty_parse %s)", cx.args[0])}
+	}
+}
